@@ -665,7 +665,7 @@ pub fn leg_http(thorough: bool, seed: u64) -> Value {
         sys.block_on(async {
             let app = test::init_service(App::new().configure(|sc| web.config(sc))).await;
             let mut latest = NIL;
-            let mut sizes: Vec<(usize, usize)> = vec![(1, 0), (4095, 1), (4096, 4), (4097, 2), (65536, 4), (LIMIT, 5), (LIMIT + 1, 5), (LIMIT + 1, 0)];
+            let mut sizes: Vec<(usize, usize)> = vec![(1, 0), (4095, 1), (4096, 4), (4097, 2), (65536, 4), ((1 << 20) + 1, 1), (3 * (1 << 20) - 1, 5), (LIMIT, 5), (LIMIT + 1, 5), (LIMIT + 1, 0)];
             if thorough {
                 sizes.extend([(65535, 1), (1 << 20, 4), (LIMIT - 1, 5), (LIMIT, 0), (LIMIT + (1 << 20), 5)]);
             }
@@ -676,10 +676,15 @@ pub fn leg_http(thorough: bool, seed: u64) -> Value {
                         5 => body.chunks(1 << 20).map(|c| c.to_vec()).collect(),
                         h => split(&body, h),
                     };
-                    let uri = if ep == "add-version" { uri_av(latest) } else { uri_snap(latest) };
-                    if ep == "add-snapshot" && latest == NIL {
-                        continue;
+                    if ep == "add-snapshot" {
+                        // a fresh latest version for every snapshot, so that each one is accepted (a snapshot of the latest version always is)
+                        let r0 = ReqSpec { method: "POST", uri: uri_av(latest), client_id: Some(cl.to_string().into_bytes()), content_type: Some(HS_CT.into()), chunks: vec![b"v".to_vec()] };
+                        match call(&app, &r0).await.ok().and_then(|d| d.one("x-version-id")).and_then(|t| Uuid::parse_str(&t).ok()) {
+                            Some(v) => latest = v,
+                            None => continue,
+                        }
                     }
+                    let uri = if ep == "add-version" { uri_av(latest) } else { uri_snap(latest) };
                     let r = ReqSpec { method: "POST", uri, client_id: Some(cl.to_string().into_bytes()), content_type: Some(ct.into()), chunks };
                     let tr = vec![format!("{ep} with a body of {size} bytes in {} chunk(s)", r.chunks.len())];
                     let d = match call(&app, &r).await {
@@ -715,9 +720,8 @@ pub fn leg_http(thorough: bool, seed: u64) -> Value {
                         let g = ReqSpec { method: "GET", uri: "/v1/client/snapshot".into(), client_id: Some(cl.to_string().into_bytes()), content_type: None, chunks: vec![] };
                         if let Ok(gd) = call(&app, &g).await {
                             ctx.common(&gd, &g, &tr, "size-readback");
-                            // the snapshot for `latest` is accepted only the first time; afterwards the stored one stays
-                            if gd.status == 200 && gd.one("x-version-id") == Some(latest.to_string()) && gd.body.len() == size && gd.body != body {
-                                ctx.v(&["C06"], format!("snapshot of {size} bytes reads back with different bytes"), &r, &tr);
+                            if gd.status != 200 || gd.one("x-version-id") != Some(latest.to_string()) || gd.body != body {
+                                ctx.v(&["C06", "C11"], format!("snapshot of {size} bytes uploaded in {} chunks for the latest version reads back as {} bytes (status {}, version {:?}){}", r.chunks.len(), gd.body.len(), gd.status, gd.one("x-version-id"), if gd.body.len() == size { ", different bytes" } else { "" }), &r, &tr);
                             }
                         }
                     }
@@ -1028,5 +1032,5 @@ pub fn leg_http(thorough: bool, seed: u64) -> Value {
     let nv = ctx.violations.len();
     json!({"leg": "http", "requests": ctx.requests, "distinct_outcomes": ctx.outcomes, "violations": ctx.violations, "violations_total": nv, "samples": ctx.samples,
         "inconclusive_items": ctx.inconclusive.iter().take(5).collect::<Vec<_>>(),
-        "bound": format!("in process (no socket); protocol histories of {} random requests x 2 configs x 2 backends; client-id forms x 4 endpoints x 4 allow-lists (absent, empty, one, many); 15 malformed requests; body sizes 1, 4095, 4096, 4097, 65536, limit, limit+1{} in up-to-5 chunkings; never-seen clients; 3 generations of WebServer on one SQLite directory (restart) with and without an allow-list; 2..4 uploads in flight at once on one worker (bodies chunk by chunk round-robin) x 3 shapes x 2 backends; each of the first 6 storage calls of each endpoint's request failing before / after taking effect", if thorough { 120 } else { 45 }, if thorough { ", 65535, 1 MiB, limit-1, limit+1 MiB" } else { "" })})
+        "bound": format!("in process (no socket); protocol histories of {} random requests x 2 configs x 2 backends; client-id forms x 4 endpoints x 4 allow-lists (absent, empty, one, many); 15 malformed requests; body sizes 1, 4095, 4096, 4097, 65536, 1 MiB+1, 3 MiB-1, limit, limit+1{} in up-to-5 chunkings; never-seen clients; 3 generations of WebServer on one SQLite directory (restart) with and without an allow-list; 2..4 uploads in flight at once on one worker (bodies chunk by chunk round-robin) x 3 shapes x 2 backends; each of the first 6 storage calls of each endpoint's request failing before / after taking effect", if thorough { 120 } else { 45 }, if thorough { ", 65535, 1 MiB, limit-1, limit+1 MiB" } else { "" })})
 }
